@@ -16,6 +16,7 @@ import (
 	"sort"
 	"strconv"
 	"strings"
+	"sync"
 	"time"
 )
 
@@ -49,6 +50,7 @@ type Plan struct {
 	Assumptions []string  `json:"assumptions"`
 	Outside     []string  `json:"outside_bounds"`
 	InitExtra   []string  `json:"init_extra"`
+	SitePrefix  string    `json:"site_prefix"`
 }
 
 type KnownFinding struct {
@@ -139,7 +141,12 @@ func cmdCheck(args []string) int {
 
 	var results []*RunResult
 	var inconclusive []string
-	for _, r := range plan.Runs {
+	var resMu sync.Mutex
+	var wg sync.WaitGroup
+	pathSem = make(chan struct{}, *workers)
+	runSem := make(chan struct{}, 8)
+	resSlots := make([]*RunResult, len(plan.Runs))
+	for ri, r := range plan.Runs {
 		if *only != "" && r.Name != *only {
 			continue
 		}
@@ -152,7 +159,7 @@ func cmdCheck(args []string) int {
 		}
 		cfg := Config{Property: plan.Property, Tier: *tier, Seed: seed, Pkg: r.Pkg, Harness: r.Fn, Workers: *workers,
 			BranchMs: tc.BranchMs, AssertMs: tc.AssertMs, MaxSteps: tc.MaxSteps, MaxPaths: tc.MaxPaths, Ascii7: tc.Ascii7,
-			Params: map[string]int{}, SymMapOrder: tc.SymMapOrder, Debug: *debug, Preempt: -1, OneShotFirst: tc.OneShot, CrossCheck: tc.CrossCheck}
+			SitePrefix: plan.SitePrefix, Params: map[string]int{}, SymMapOrder: tc.SymMapOrder, Debug: *debug, Preempt: -1, OneShotFirst: tc.OneShot, CrossCheck: tc.CrossCheck}
 		for k, v := range tc.Params {
 			cfg.Params[k] = v
 		}
@@ -180,25 +187,39 @@ func cmdCheck(args []string) int {
 			inconclusive = append(inconclusive, fmt.Sprintf("run %s: harness %s.%s not found", r.Name, r.Pkg, r.Fn))
 			continue
 		}
-		ex := NewExplorer(cfg, ld)
-		ex.harness = fn
-		tr := time.Now()
-		ex.Run()
-		res := &RunResult{Spec: r, Ex: ex, Dur: time.Since(tr), Cfg: cfg}
-		results = append(results, res)
-		for _, m := range ex.inconcl {
-			inconclusive = append(inconclusive, "run "+r.Name+": "+m)
-		}
-		for _, id := range r.Reach {
-			if ex.reach[id] == 0 {
-				inconclusive = append(inconclusive, fmt.Sprintf("run %s: reach marker %q never witnessed (vacuous harness?)", r.Name, id))
+		wg.Add(1)
+		go func(ri int, r RunSpec, cfg Config) {
+			defer wg.Done()
+			runSem <- struct{}{}
+			defer func() { <-runSem }()
+			ex := NewExplorer(cfg, ld)
+			ex.harness = fn
+			tr := time.Now()
+			ex.Run()
+			res := &RunResult{Spec: r, Ex: ex, Dur: time.Since(tr), Cfg: cfg}
+			resMu.Lock()
+			defer resMu.Unlock()
+			resSlots[ri] = res
+			for _, m := range ex.inconcl {
+				inconclusive = append(inconclusive, "run "+r.Name+": "+m)
 			}
+			for _, id := range r.Reach {
+				if ex.reach[id] == 0 {
+					inconclusive = append(inconclusive, fmt.Sprintf("run %s: reach marker %q never witnessed (vacuous harness?)", r.Name, id))
+				}
+			}
+			if ex.pathsDone == 0 {
+				inconclusive = append(inconclusive, fmt.Sprintf("run %s: no path completed", r.Name))
+			}
+			fmt.Fprintf(os.Stderr, "[%s/%s] paths=%d done=%d infeasible=%d decisions=%d steps=%d violations=%d inconclusive=%d %.1fs\n",
+				plan.Property, r.Name, ex.paths, ex.pathsDone, ex.infeasible, ex.decisions, ex.steps, len(ex.violations), len(ex.inconcl), res.Dur.Seconds())
+		}(ri, r, cfg)
+	}
+	wg.Wait()
+	for _, r := range resSlots {
+		if r != nil {
+			results = append(results, r)
 		}
-		if ex.pathsDone == 0 {
-			inconclusive = append(inconclusive, fmt.Sprintf("run %s: no path completed", r.Name))
-		}
-		fmt.Fprintf(os.Stderr, "[%s/%s] paths=%d done=%d infeasible=%d decisions=%d steps=%d violations=%d inconclusive=%d %.1fs\n",
-			plan.Property, r.Name, ex.paths, ex.pathsDone, ex.infeasible, ex.decisions, ex.steps, len(ex.violations), len(ex.inconcl), res.Dur.Seconds())
 	}
 
 	// replay violations natively, match against known findings
@@ -369,8 +390,8 @@ func writeEvidence(plan Plan, tier string, seed int, results []*RunResult, incon
 		for _, s := range siteNames {
 			st := ex.sites[s]
 			obligations += st.Symbolic
-			discharged += st.Discharged - (st.Evaluated - st.Symbolic)
-			siteOut[s] = map[string]int64{"paths_reaching": st.Evaluated, "solver_queries": st.Symbolic, "discharged": st.Discharged, "violated": st.Violated, "unknown": st.Unknown}
+			discharged += st.SymDischarged
+			siteOut[s] = map[string]int64{"paths_reaching": st.Evaluated, "solver_queries": st.Symbolic, "discharged": st.Discharged, "discharged_by_unsat": st.SymDischarged, "violated": st.Violated, "unknown": st.Unknown}
 		}
 		var reachNames []string
 		for id := range ex.reach {
